@@ -6,9 +6,9 @@ not end in a digit and are not prefixes of one another in capitalised form (C16 
 """
 import json, os
 
-def prop(name, ty, read=None, write=None, notify=None, constant=False):
+def prop(name, ty, read=None, write=None, notify=None, constant=False, final=False):
     d = dict(name=name, type=ty, designable=True, scriptable=True, stored=True, user=False,
-             constant=constant, final=False, required=False)
+             constant=constant, final=final, required=False)
     if read: d['read'] = read
     if write: d['write'] = write
     if notify: d['notify'] = notify
@@ -43,6 +43,8 @@ TSOURCE_PROPS = [
     prop('quiet', 'int', 'quiet', 'setQuiet'),                     # readable+writable, no NOTIFY, not CONSTANT
     prop('rdonly', 'int', 'rdonly', None, 'rdonlyChanged'),         # read-only with NOTIFY
     prop('cptr', 'TSource*', 'cptr', constant=True),               # constant pointer
+    prop('fin', 'int', 'fin', None, 'finChanged', final=True),      # FINAL, read-only, with NOTIFY: not a constant
+    prop('finq', 'int', 'finq', final=True),                        # FINAL, read-only, no NOTIFY: unobservable
 ]
 
 classes = [
@@ -80,7 +82,7 @@ classes = [
                enum('Opts', ['OptX', 'OptY', 'OptZ'], flag=True, alias='Opt')],
         props=TSOURCE_PROPS + [rw('gad', 'TGadget')],
         signals=chg('jval', 'uval', 'dval', 'flag', 'flagB', 'text', 'textB', 'mode', 'opts', 'ptr', 'sub', 'items',
-                    'vval', 'rdonly', 'gad', 'level')
+                    'vval', 'rdonly', 'gad', 'level', 'fin')
         + [meth('ivalChanged', args=['int']),
            meth('fired', args=['int', 'QString']), meth('fired', args=['int']),      # default-argument pair
            meth('plain'), meth('toggledTo', args=['bool']),
